@@ -4,3 +4,6 @@
 #include <tbox/coroutine/mutex.hpp>
 #include <tbox/coroutine/channel.hpp>
 template class tbox::coroutine::Channel<int>;
+#include <tbox/coroutine/condition.hpp>
+#include <tbox/coroutine/broadcast.hpp>
+template class tbox::coroutine::Condition<int>;
